@@ -11,6 +11,7 @@ An expression is a JSON-able nested list:
     ["neg", a]
     ["sin", a] ["cos", a] ["tanh", a] ["atan", a]
     ["gauss", a]       exp(-a**2)
+    ["gate", a]        1/(1 + exp(a))   (logistic gate; only used by directed probes)
     ["hyp", a]         sqrt(1 + a**2)
     ["lg", a]          log(1 + a**2)
     ["asinsin", a]     asin(sin(a))   angle-wrap idioms: total and continuous, but
@@ -39,7 +40,7 @@ MP = mpmath.mp.clone()
 MP.dps = 40
 mpf = MP.mpf
 
-UNARY = ("neg", "sin", "cos", "tanh", "atan", "gauss", "hyp", "lg", "asinsin", "acoscos", "atantan")
+UNARY = ("neg", "sin", "cos", "tanh", "atan", "gauss", "gate", "hyp", "lg", "asinsin", "acoscos", "atantan")
 WRAPS = ("asinsin", "acoscos", "atantan")
 BINARY = ("add", "sub", "mul", "div")
 
@@ -152,6 +153,8 @@ def to_sympy(a, symtab=None):
             return sympy.atan(rec(a[1]))
         if op == "gauss":
             return sympy.exp(-rec(a[1]) ** 2)
+        if op == "gate":
+            return 1 / (1 + sympy.exp(rec(a[1])))
         if op == "hyp":
             return sympy.sqrt(1 + rec(a[1]) ** 2)
         if op == "lg":
@@ -189,6 +192,8 @@ def to_text(a):
         return f"{op}({to_text(a[1])})"
     if op == "gauss":
         return f"exp(-({to_text(a[1])})**2)"
+    if op == "gate":
+        return f"(1/(1 + exp({to_text(a[1])})))"
     if op == "hyp":
         return f"sqrt(1 + ({to_text(a[1])})**2)"
     if op == "lg":
@@ -251,6 +256,9 @@ def ev(a, env):
     if op == "gauss":
         v = MP.exp(-x * x)
         return v, v * (1 + sx * sx) + sx * sx * MP.exp(-x * x)
+    if op == "gate":
+        v = 1 / (1 + MP.exp(x))
+        return v, v * (1 + sx)
     if op == "hyp":
         u = 1 + x * x
         su = 1 + sx * sx
@@ -321,6 +329,8 @@ def d(a, name):
         return mul(["div", ONE, ["add", ONE, ["pow", u, 2]]], du)
     if op == "gauss":
         return mul(mul(mul(C(-2), u), ["gauss", u]), du)
+    if op == "gate":
+        return mul(neg(mul(["gate", u], sub(ONE, ["gate", u]))), du)
     if op == "hyp":
         return mul(["div", u, ["hyp", u]], du)
     if op == "lg":
